@@ -74,7 +74,7 @@ const F64_GRID: u64 = 2048 * 8;
 /// d x 10^k, k in -400..=400, 6 digit strings
 const DEC_GRID: u64 = 801 * 6;
 /// 53 trailing-zero counts x 141 unbiased exponents (-70..=70)
-const TZ_GRID: u64 = 53 * 141;
+const TZ_GRID: u64 = 53 * 141 * 3;
 const F32_SWEEP_RUNS_THOROUGH: u64 = 65536; // x 65536 patterns = all 2^32
 const F32_SWEEP_RUNS_QUICK: u64 = 1024; // x 1024 patterns, stride 4099
 
@@ -533,6 +533,23 @@ fn gen_decimal(rng: &mut Rng) -> Dec {
             let scale = if rng.chance(1, 2) { mag } else { -mag };
             Dec::new(rng.chance(1, 2), &digits, scale)
         }
+        // unusual but valid representations: significant digits padded with 19..140 trailing zeros and a
+        // positive scale of about that size (what with_scale / arithmetic produce)
+        14 if rng.chance(1, 2) => {
+            let nd = 1 + rng.below(60) as usize;
+            let mut sdig = String::new();
+            sdig.push((b'1' + rng.below(9) as u8) as char);
+            for _ in 1..nd {
+                sdig.push((b'0' + rng.below(10) as u8) as char);
+            }
+            let zeros = 17 + rng.below(124) as usize;
+            let scale = match rng.below(3) {
+                0 => zeros as i64,
+                1 => zeros as i64 + rng.range(-25, 25),
+                _ => rng.range(1, 160),
+            };
+            Dec::new(rng.chance(1, 2), &format!("{}{}", sdig, "0".repeat(zeros)), scale)
+        }
         // long digit strings (several 19-digit trimming rounds), any exponent in range
         14 => {
             let nd = 26 + rng.below(375) as usize;
@@ -610,10 +627,17 @@ impl Property for C14 {
         let r = r - F64_GRID;
         if r < TZ_GRID {
             // mantissas with exactly tz trailing zero bits x binary exponents around the integer/fraction boundary
+            let variant = r / (53 * 141);
+            let r = r % (53 * 141);
             let tz = r % 53;
             let e = (r / 53) as i64 - 70; // value = mantissa * 2^(e-52), unbiased exponent e in -70..=70
             let full = (1u64 << 52) - 1;
-            let mant = if tz >= 52 { 0 } else { ((rng.next_u64() & full) | (1u64 << tz)) & !((1u64 << tz) - 1) };
+            let upper = match variant {
+                0 => rng.next_u64() & full,
+                1 => full,
+                _ => 0,
+            };
+            let mant = if tz >= 52 { 0 } else { (upper | (1u64 << tz)) & !((1u64 << tz) - 1) };
             let ef = (1023 + e) as u64;
             return Trace { item: Item::F64 { bits: ((r % 2) << 63) | (ef << 52) | mant }, env: EnvSel::All };
         }
